@@ -1,7 +1,7 @@
 //! verif-harness: generates cases and runs them on the implementation.
 //!   harness gen <PROP> --seed S --n N --tier quick|thorough   > cases
 //!   harness run <PROP> < cases                                > cases with OUT lines
-mod alloc; mod rng; mod tok; mod resp; mod srv; mod c20; mod c01;
+mod alloc; mod rng; mod tok; mod resp; mod srv; mod c20; mod c01; mod c04;
 use std::io::{self, BufWriter, Write};
 
 #[global_allocator]
@@ -23,13 +23,13 @@ fn main() {
     let out = io::stdout(); let mut w = BufWriter::new(out.lock());
     match mode {
         "gen" => {
-            let cases = match prop { "C20" => c20::gen(seed, n, &tier), "C01" => c01::gen(seed, n, &tier), _ => { eprintln!("no generator for {}", prop); std::process::exit(2) } };
+            let cases = match prop { "C20" => c20::gen(seed, n, &tier), "C01" => c01::gen(seed, n, &tier), "C04" => c04::gen(seed, n, &tier), _ => { eprintln!("no generator for {}", prop); std::process::exit(2) } };
             for c in &cases { tok::write_case(&mut w, c); }
         }
         "run" => {
             let cases = tok::read_cases(io::stdin().lock());
             for c in &cases {
-                let r = match prop { "C20" => c20::run(c), "C01" => c01::run(c), _ => { eprintln!("no runner for {}", prop); std::process::exit(2) } };
+                let r = match prop { "C20" => c20::run(c), "C01" => c01::run(c), "C04" => c04::run(c), _ => { eprintln!("no runner for {}", prop); std::process::exit(2) } };
                 tok::write_case(&mut w, &r);
             }
         }
@@ -39,6 +39,11 @@ fn main() {
                 let fails = match prop { "C20" => c20::judge(c, &c.outs), _ => vec![] };
                 for f in fails { writeln!(w, "{}", f).unwrap(); }
             }
+        }
+        "tally" => {
+            let cases = tok::read_cases(io::stdin().lock());
+            let lines = match prop { "C04" => c04::tally(&cases), _ => vec![] };
+            for l in lines { writeln!(w, "{}", l).unwrap(); }
         }
         _ => { eprintln!("bad mode"); std::process::exit(2); }
     }
